@@ -43,7 +43,10 @@ CONSTANTS
                \* seeded along direction a (variable s) and direction b (variable t); jets variant only
   SeedTerm,    \* "" or the name of a terminal that the environments seed along its own components
                \* (diff with respect to a coefficient)
-  NDir,        \* number of directions (spatial dimension, or number of components of the variable)
+  NDir,        \* number of directions: NSpat spatial directions followed by the flattened components of the
+               \* differentiation variables (VarSizes)
+  NSpat,       \* number of spatial directions (0: no spatial derivatives in this model)
+  VarSizes,    \* sequence: the k-th variable that is differentiated against has VarSizes[k] components
   PipeScale,   \* PipeScale[k][e]: the factor by which option vector k of compute_form_data scales the
                \* integrand of a cell integral in environment e (|detJ| w, or 1 without integral scaling)
   ReplMaps,    \* sequence of [src |-> terminal position, sub |-> Seq(env)]: replacement maps (C21):
@@ -388,42 +391,43 @@ DirDeriv(x, e, bd, c, m) ==
       zb == At(x, EnvAt(E, b, m), bd, c)          \* x seeded along (b, m)
   IN <<za[3], za[4], zb[4], CU[1]>>
 HasDirs == Jets /\ NDir > 0 /\ Len(EnvDirs) = NEnv
+HasSpat == HasDirs /\ NSpat > 0
 \* grad(x)[..., m] = d_m x
 DoGrad(a) == LET x == store[a] IN
-  /\ HasDirs /\ IsVal(x)
-  /\ Push(Mk("grad", <<a>>, << >>, x.sh \o <<NDir>>, x.fi,
+  /\ HasSpat /\ IsVal(x)
+  /\ Push(Mk("grad", <<a>>, << >>, x.sh \o <<NSpat>>, x.fi,
              LAMBDA e, bd, c : DirDeriv(x, e, bd, SubSeq(c, 1, Len(c) - 1), c[Len(c)])))
 \* nabla_grad(x)[m, ...] = d_m x
 DoNablaGrad(a) == LET x == store[a] IN
-  /\ HasDirs /\ IsVal(x)
-  /\ Push(Mk("nabla_grad", <<a>>, << >>, <<NDir>> \o x.sh, x.fi,
+  /\ HasSpat /\ IsVal(x)
+  /\ Push(Mk("nabla_grad", <<a>>, << >>, <<NSpat>> \o x.sh, x.fi,
              LAMBDA e, bd, c : DirDeriv(x, e, bd, Tail(c), c[1])))
 \* div(x) = sum_m d_m x[..., m]  (contraction with the LAST axis)
 DoDivergence(a) == LET x == store[a] IN
-  /\ HasDirs /\ IsVal(x) /\ Rank(x) >= 1 /\ x.sh[Len(x.sh)] = NDir
+  /\ HasSpat /\ IsVal(x) /\ Rank(x) >= 1 /\ x.sh[Len(x.sh)] = NSpat
   /\ Push(Mk("div", <<a>>, << >>, SubSeq(x.sh, 1, Len(x.sh) - 1), x.fi,
-             LAMBDA e, bd, c : FoldSet(LAMBDA m, acc : CAdd(DirDeriv(x, e, bd, c \o <<m>>, m), acc), C0, 0..(NDir - 1))))
+             LAMBDA e, bd, c : FoldSet(LAMBDA m, acc : CAdd(DirDeriv(x, e, bd, c \o <<m>>, m), acc), C0, 0..(NSpat - 1))))
 \* nabla_div(x) = sum_m d_m x[m, ...]  (contraction with the FIRST axis)
 DoNablaDiv(a) == LET x == store[a] IN
-  /\ HasDirs /\ IsVal(x) /\ Rank(x) >= 1 /\ x.sh[1] = NDir
+  /\ HasSpat /\ IsVal(x) /\ Rank(x) >= 1 /\ x.sh[1] = NSpat
   /\ Push(Mk("nabla_div", <<a>>, << >>, Tail(x.sh), x.fi,
-             LAMBDA e, bd, c : FoldSet(LAMBDA m, acc : CAdd(DirDeriv(x, e, bd, <<m>> \o c, m), acc), C0, 0..(NDir - 1))))
+             LAMBDA e, bd, c : FoldSet(LAMBDA m, acc : CAdd(DirDeriv(x, e, bd, <<m>> \o c, m), acc), C0, 0..(NSpat - 1))))
 \* curl: 3D vector -> vector, 2D vector -> scalar (d_0 x_1 - d_1 x_0), 2D scalar -> vector (d_1 x, -d_0 x)
 DoCurl(a) == LET x == store[a] IN
-  /\ HasDirs /\ IsVal(x) /\ x.fi = << >>
-  /\ \/ NDir = 3 /\ x.sh = <<3>>
+  /\ HasSpat /\ IsVal(x) /\ x.fi = << >>
+  /\ \/ NSpat = 3 /\ x.sh = <<3>>
         /\ Push(Mk("curl", <<a>>, << >>, <<3>>, << >>,
                    LAMBDA e, bd, c : LET p == (c[1] + 1) % 3  q == (c[1] + 2) % 3 IN
                       CSub(DirDeriv(x, e, bd, <<q>>, p), DirDeriv(x, e, bd, <<p>>, q))))
-     \/ NDir = 2 /\ x.sh = <<2>>
+     \/ NSpat = 2 /\ x.sh = <<2>>
         /\ Push(Mk("curl", <<a>>, << >>, << >>, << >>,
                    LAMBDA e, bd, c : CSub(DirDeriv(x, e, bd, <<1>>, 0), DirDeriv(x, e, bd, <<0>>, 1))))
-     \/ NDir = 2 /\ x.sh = << >>
+     \/ NSpat = 2 /\ x.sh = << >>
         /\ Push(Mk("curl", <<a>>, << >>, <<2>>, << >>,
                    LAMBDA e, bd, c : IF c[1] = 0 THEN DirDeriv(x, e, bd, << >>, 1) ELSE CNeg(DirDeriv(x, e, bd, << >>, 0))))
 \* x.dx(m) = d_m x
 DoDx(a, m) == LET x == store[a] IN
-  /\ HasDirs /\ IsVal(x)
+  /\ HasSpat /\ IsVal(x)
   /\ Push(Mk("dx", <<a>>, <<m>>, x.sh, x.fi, LAMBDA e, bd, c : DirDeriv(x, e, bd, c, m)))
 \* Gateaux derivatives: the harness seeds the coefficient w1 as w1 + s v1 and w2 as w2 + t v2;
 \* derivative(x, w1, v1) is the s-coefficient, derivative(x, w2, v2) the t-coefficient.
@@ -436,18 +440,21 @@ DoGateaux(k, a) == LET x == store[a] IN
 FlatPos(sh, c) == LET RECURSIVE Go(_, _)
                       Go(k, acc) == IF k > Len(sh) THEN acc ELSE Go(k + 1, acc * sh[k] + c[k])
                   IN Go(1, 0)
-DoSeedVariable(a) == LET x == store[a] IN
-  /\ HasDirs /\ IsVal(x) /\ x.fi = << >> /\ \A n \in Ids : store[n].op # "seedvar"
-  /\ Cardinality(Tup(x.sh)) = NDir
-  /\ Push(Mk("seedvar", <<a>>, << >>, x.sh, << >>,
+SeedVars == {n \in Ids : store[n].op = "seedvar"}
+SeedUsed == FoldSet(LAMBDA n, acc : acc + Cardinality(Tup(store[n].sh)), 0, SeedVars)
+DoSeedVariable(a) == LET x == store[a]  k == Cardinality(SeedVars) + 1  off == NSpat + SeedUsed IN
+  /\ HasDirs /\ IsVal(x) /\ x.fi = << >> /\ k <= Len(VarSizes)
+  /\ Cardinality(Tup(x.sh)) = VarSizes[k]
+  /\ Push(Mk("seedvar", <<a>>, <<off>>, x.sh, << >>,
              LAMBDA e, bd, c : CSeed(At(x, e, bd, c),
-                                     IF FlatPos(x.sh, c) = EnvDirs[e][2] THEN C1[1] ELSE C0[1],
-                                     IF FlatPos(x.sh, c) = EnvDirs[e][3] THEN C1[1] ELSE C0[1])))
+                                     IF off + FlatPos(x.sh, c) = EnvDirs[e][2] THEN C1[1] ELSE C0[1],
+                                     IF off + FlatPos(x.sh, c) = EnvDirs[e][3] THEN C1[1] ELSE C0[1])))
 \* diff(f, v)[cf, cv] = derivative of f with respect to component cv of the value of the variable v
 DoDiff(a, v) == LET x == store[a]  y == store[v] IN
   /\ HasDirs /\ IsVal(x) /\ (y.op = "seedvar" \/ (y.op = "term" /\ y.nm = SeedTerm /\ SeedTerm # ""))
   /\ Push(Mk("diff", <<a, v>>, << >>, x.sh \o y.sh, x.fi,
-             LAMBDA e, bd, c : DirDeriv(x, e, bd, SubSeq(c, 1, Rank(x)), FlatPos(y.sh, SubSeq(c, Rank(x) + 1, Len(c))))))
+             LAMBDA e, bd, c : DirDeriv(x, e, bd, SubSeq(c, 1, Rank(x)),
+                                        (IF y.op = "seedvar" THEN y.mi[1] ELSE NSpat) + FlatPos(y.sh, SubSeq(c, Rank(x) + 1, Len(c))))))
 
 -----------------------------------------------------------------------------
 (* Conditions and conditionals (conditional.py).  A condition is a node with IsBool; its    *)
@@ -554,7 +561,7 @@ Next ==
        \/ "div" \in CurOps /\ DoDivergence(a)
        \/ "nabla_div" \in CurOps /\ DoNablaDiv(a)
        \/ "curl" \in CurOps /\ DoCurl(a)
-       \/ "dx" \in CurOps /\ \E m \in 0..(NDir - 1) : DoDx(a, m)
+       \/ "dx" \in CurOps /\ \E m \in 0..(NSpat - 1) : DoDx(a, m)
        \/ "gateaux1" \in CurOps /\ DoGateaux(1, a)
        \/ "gateaux2" \in CurOps /\ DoGateaux(2, a)
        \/ "seedvar" \in CurOps /\ DoSeedVariable(a)
